@@ -19,7 +19,7 @@ def table(pattern, missed, noinput, title):
         now = ('detected' + ('' if v.get('detected_with_input') else ', no input')) if v.get('detected') else 'MISSED'
         rows.append((sid, v.get('property') or m.get('property', sid[:3]),
                      (m.get('summary') or '')[:110].replace('|', '/').replace('\n', ' '),
-                     (m.get('needs_to_manifest') or '')[:90].replace('|', '/').replace('\n', ' '), first, now,
+                     (m.get('needs_to_manifest') or m.get('needs') or '')[:90].replace('|', '/').replace('\n', ' '), first, now,
                      v.get('confirmed')))
     print('#### ' + title)
     print()
